@@ -3,6 +3,7 @@ import asyncio
 from datetime import timedelta
 
 from .. import assert_repo
+from ..links import ANY_LINK
 
 ID = 'C15'
 LEVEL = 'exploration'
@@ -146,7 +147,7 @@ def run_case(gen, idx, rng, tier):
             frames.append({'type': 'KEEPALIVE', 'sid': 0, 'respond': rng.random() < 0.6, 'data': rng.randbytes(dl),
                            'position': rng.choice([0, 1, rng.randrange(0, 2 ** 63)]),
                            '_gap': rng.choice([0, 0, 0, 1e-3, 0.1])})
-        desc = {'real': rng.choice('cs'), 'link': rng.choice(['bytes', 'messages']),
+        desc = {'real': rng.choice('cs'), 'link': rng.choice(ANY_LINK),
                 'frames': [{'respond': f['respond'], 'data_len': len(f['data']), 'gap': f['_gap']} for f in frames],
                 '_frames': frames}
         sent, others = vloop.run(_echo(rng, desc))
@@ -174,7 +175,7 @@ def run_case(gen, idx, rng, tier):
     L = P * rng.choice([0.5, 1.0, 1.5, 2.0, 3.0, 5.0, 20.0])
     ack = rng.choice([('always',), ('always',), ('never',), ('until', rng.choice([1, 2, 3, 5, 8]) * P),
                       ('delay', rng.choice([0.1, 0.5, 0.9, 1.5, 3.0]) * L), ('drop', rng.choice([2, 3, 5]))])
-    d = {'P': P, 'L': L, 'ack': list(ack), 'link': rng.choice(['bytes', 'messages']),
+    d = {'P': P, 'L': L, 'ack': list(ack), 'link': rng.choice(ANY_LINK),
          'link_delay': rng.choice([0, 0, 1e-4, 1e-3]), 'duration': max(12 * P, 4 * L) + rng.choice([0, P / 2])}
     d['ack'] = ack
     d['traffic'] = rng.random() < 0.2
